@@ -91,12 +91,25 @@ fn run(ctx: &mut Ctx) {
     let spf = Space::<usize>::by_foreign(&[1, 4, 6]);
     sweep_api(ctx, &spf, "foreign", ORACLE, IteMode::CondInit, TAG);
     f4_sweep(ctx, ORACLE, TAG);
+    if ctx.thorough() {
+        // complete F_4 x F_4 for every connective (2^32 pairs each)
+        let ops: Vec<crate::refl::Bin> = match std::env::var("VCHECK_PAIRS4_OPS") {
+            Ok(v) => ALL_BINS.iter().copied().filter(|b| v.split(',').any(|x| x == format!("{b:?}").to_lowercase())).collect(),
+            Err(_) => ALL_BINS.to_vec(),
+        };
+        pairs4_sweep(ctx, ORACLE, TAG, &ops, "pairs_k4_complete");
+    }
+    sweep_named_wide(ctx, ORACLE, TAG);
     sweep_family6(ctx, ORACLE, TAG);
     let s4 = ctx.globals.get("states_k4").copied().unwrap_or(0);
     ctx.global("states", states + s4);
 }
 
 fn replay(ctx: &mut Ctx, case: &Value) {
+    if case["part"].as_str() == Some("named-wide") {
+        replay_named_wide(ctx, case, ORACLE, TAG);
+        return;
+    }
     if case["part"].as_str() == Some("family6") {
         replay_family6(ctx, case, ORACLE, TAG);
         return;
